@@ -31,6 +31,11 @@ func CRFocusProfile(t *rapid.T, p *Profile) {
 		}
 	}
 	vp := int(p.VotingPeriod)
+	if p.DPoSV2Start < Far && rapid.Bool().Draw(t, "claimperiod-counts") {
+		// from DPoSV2StartHeight on proposals are not admitted during the claim
+		// period between the end of the voting and the change either
+		vp += int(p.CRClaimPeriod)
+	}
 	switch rapid.IntRange(0, 3).Draw(t, "periodmode") {
 	case 1, 2:
 		p.ProposalCRVotingPeriod = uint32(vp + rapid.IntRange(-1, 2).Draw(t, "crvoting-vs-votingperiod"))
@@ -110,9 +115,20 @@ func CRFocusKinds(g *Gen) {
 		if kind == "proposal" && endsAtChange() == 0 {
 			return 60
 		}
+		if h >= g.K.Params.DPoSV2StartHeight {
+			// the CR votes of the DPoS 2.0 era need stake
+			switch kind {
+			case "stake":
+				if len(g.votersWithRights()) < 3 {
+					return 12
+				}
+			case "votingimpeach":
+				return 3
+			}
+		}
 		if h >= cc.CRVotingStartHeight && c.IsInVotingPeriod(h) {
 			// the next committee needs voted candidates (on top of Gen.weight)
-			if kind == "registercr" || kind == "votecr" {
+			if kind == "registercr" || kind == "votecr" || kind == "votingcr" {
 				return 4
 			}
 			return 1
@@ -162,7 +178,7 @@ func CRFocusKinds(g *Gen) {
 				return 1 + 2*min(registered, 3)
 			}
 			return 1 + 8*min(registered, 3)
-		case "voteproposal":
+		case "voteproposal", "votingproposal":
 			// voters reject a proposal during its public vote
 			return 1 + 10*min(inPublicVote, 2)
 		case "tracking":
